@@ -28,13 +28,14 @@ def build_c11():
             f"formulaic/transforms/contrasts.py::{cls}._find_base_index",
             params={"self": {"__class__": cls, "base": TOpt(LEVEL)}, "levels": TSeq(LEVEL)}, returns="Int", globals=G,
             truthy_of={"Level": lambda v: z3.Not(FALSY(v.t))},
-            raises={"ValueError": "self.base is not None and self.base not in levels"},
+            raises={"ValueError": "self.base is not UNSET and self.base not in levels"},
             ensures=[
-                f"implies(self.base is None, result == {dflt})",
+                f"implies(self.base is UNSET, result == {dflt})",
                 # the reference level is the requested base itself (first position holding it), whatever its label is
-                "implies(self.base is not None, 0 <= result and result < len(levels) and levels[result] == self.base)",
-                "implies(self.base is not None, forall(lambda j: implies(0 <= j and j < result, levels[j] != self.base)))",
+                "implies(self.base is not UNSET, 0 <= result and result < len(levels) and levels[result] == self.base)",
+                "implies(self.base is not UNSET, forall(lambda j: implies(0 <= j and j < result, levels[j] != self.base)))",
             ], modifies=[], props=["C11"])
+        c.concrete_env = {"UNSET": __import__("formulaic.transforms.contrasts", fromlist=["UNSET"]).UNSET}
         cs.append(reg.add(c))
     return reg, cs
 
@@ -52,7 +53,10 @@ def build_c14_flags():
         return V(FLAGS, FROM_SPEC(args[0].t))
 
     def flags_contains(eng, args, kw, n, st):
-        return V(TBool, FLAG_IN(args[0].t, args[1].t))
+        a, b = args
+        if b.t.sort() == FLAGS.sort():      # `flags in other_flags` (Flag.__contains__: every bit of the operand is set)
+            return V(TBool, z3.Function("flags_subset", FLAGS.sort(), FLAGS.sort(), z3.BoolSort())(b.t, a.t))
+        return V(TBool, FLAG_IN(a.t, b.t))
 
     reg.methods[("FeatureFlags", "__contains__")] = flags_contains
     G = {"DefaultFormulaParser": PyConst("DefaultFormulaParser"), "DefaultFormulaParser.FeatureFlags": PyConst("DefaultFormulaParser.FeatureFlags"),
@@ -65,7 +69,7 @@ def build_c14_flags():
             "formulaic/parser/parser.py::DefaultOperatorResolver.set_feature_flags", params={"self": selfspec, "flags": "FlagSpec"}, returns="self",
             globals=G, spec_env=spec_env,
             ensures=["'operator_table' not in self.__dict__",          # the next use rebuilds the table from the new flags
-                     "self.feature_flags == from_spec(flags)"],
+                     "self.feature_flags == from_spec(old_flags)"],
             props=["C14"])
         c.label = label
         cs.append(c)
@@ -162,9 +166,69 @@ BUILDERS = {"C11": [build_c11], "C14": [build_c14_flags, build_token_required_va
             "C03": [build_scoped_term_identity]}
 
 
+def _workloads(prop):
+    from vf.pyvc import workload
+
+    def w_c11():
+        import warnings
+
+        import pandas as pd
+
+        import formulaic
+
+        df = pd.DataFrame({"A": list("xyzxyzxy"), "N": [0, 1, 2, 0, 1, 2, 0, 1], "E": ["", "a", "b", "", "a", "b", "", "a"], "x": range(8)})
+        for f in ("C(A)", "C(A, contr.treatment('y'))", "C(A, contr.treatment(base='z'))", "C(N, contr.treatment(0))", "C(N, contr.treatment(2))",
+                  "C(E, contr.treatment(''))", "C(E, contr.treatment('b'))", "C(A, contr.SAS)", "C(A, contr.SAS('x'))", "C(N, contr.SAS(0))",
+                  "C(A, contr.treatment('q'))", "C(N, contr.SAS(7))", "C(A, contr.treatment):x"):
+            for ensure in (True, False):
+                with warnings.catch_warnings():
+                    warnings.simplefilter("ignore")
+                    try:
+                        formulaic.model_matrix(f, df, ensure_full_rank=ensure)
+                    except Exception:
+                        pass
+
+    def w_c14():
+        from formulaic.parser import DefaultFormulaParser
+
+        for flags in ("default", "all", "twosided", "multipart", set()):
+            try:
+                p = DefaultFormulaParser(feature_flags=flags)
+                for f in ("a + b", "y ~ a", "a | b", "y ~ a | b"):
+                    for again in ("default", "all", set()):
+                        try:
+                            p.get_terms(f)
+                        except Exception:
+                            pass
+                        p.operator_resolver.set_feature_flags(again)
+                        try:
+                            p.get_terms(f)
+                        except Exception:
+                            pass
+            except Exception:
+                pass
+        for f in workload.FORMULAS + ["x[0].y ~ a", "(a).b + c", "(lambda q: q)(a) ~ b", "a[1](2)", "f(x)[0].z", "`my col` + {a b}", "{1 +} ~ a"]:
+            try:
+                toks = list(__import__("formulaic.parser.algos.tokenize", fromlist=["tokenize"]).tokenize(f))
+            except Exception:
+                continue
+            for t in toks:
+                try:
+                    t.required_variables
+                except Exception:
+                    pass
+
+    def w_c03():
+        workload.run_materialization(items=["A:B + B:A:D", "a:A + A:a:B", "A*B*D", "B:A + A:B", "0 + A:B + B:A", "a:b:A + A:b:a:B", "A + a:A + B:a"])
+
+    return {"C11": [w_c11], "C14": [w_c14], "C17": [w_c14], "C03": [w_c03]}.get(prop, [])
+
+
 def run_small(ctx, prop):
     from vf.pyvc.run import run_contracts
 
-    for b in BUILDERS.get(prop, []):
+    builders = BUILDERS.get(prop, [])
+    wl = _workloads(prop)
+    for k, b in enumerate(builders):
         reg, cs = b()
-        run_contracts(ctx, cs, reg)
+        run_contracts(ctx, cs, reg, workloads=wl if k == len(builders) - 1 else (), monitor_extra=())
